@@ -5,6 +5,8 @@ import (
 	"time"
 
 	z "github.com/Oudwins/zog"
+	"github.com/Oudwins/zog/conf"
+	"github.com/Oudwins/zog/zhttp"
 	v "github.com/Oudwins/zog/zzverif"
 )
 
@@ -20,6 +22,15 @@ type c12In struct {
 	X int
 	Y string
 }
+type c12Env string
+type c12Num int
+
+// an ordinary error that wraps another one
+type c12Wrap struct{ inner error }
+
+func (w *c12Wrap) Error() string { return "wrapped: " + w.inner.Error() }
+func (w *c12Wrap) Unwrap() error { return w.inner }
+
 type c12Dest struct {
 	A  int
 	N  c12In
@@ -32,10 +43,10 @@ type c12Dest struct {
 func C12_Jobs() []string {
 	var out []string
 	for _, m := range []string{"parse", "validate"} {
-		for _, s := range []string{"top-struct", "struct-in-slice", "struct-behind-ptr", "nested-struct", "slice-in-struct", "custom-in-struct", "primitive"} {
+		for _, s := range []string{"top-struct", "struct-in-slice", "struct-behind-ptr", "nested-struct", "slice-in-struct", "custom-in-struct", "primitive", "named-primitives"} {
 			out = append(out, "arg/"+s+"/"+m)
 		}
-		out = append(out, "post/order/"+m, "post/gated/"+m, "post/error/"+m, "post/zogissue/"+m, "post/struct/"+m, "post/slice/"+m, "post/error-catch/"+m)
+		out = append(out, "post/order/"+m, "post/gated/"+m, "post/error/"+m, "post/zogissue/"+m, "post/struct/"+m, "post/slice/"+m, "post/error-catch/"+m, "post/wrapped/"+m)
 	}
 	out = append(out, "preprocess/ok", "preprocess/error", "preprocess/mismatch", "preprocess/in-struct",
 		"after-catch/post-error/parse", "after-catch/post-error/validate", "after-catch/preprocess-error/parse", "after-catch/custom/parse", "after-catch/custom/validate", "after-catch/slice-elements/parse")
@@ -100,6 +111,42 @@ func C12_Run(job string) {
 			schema = z.Struct(z.Schema{"c": z.CustomFunc(func(p *int, ctx z.Ctx) bool { return rec(p, ctx) })})
 			in, want = map[string]any{"c": x}, &d.C
 			d.C = x
+		case "named-primitives":
+			// schemas of named primitive types: the test receives the node's own (named) value
+			var gotS, gotN any
+			str := visible("s", 2)
+			v.Assume(len(str) > 0 && x != 0)
+			ss := &z.StringSchema[c12Env]{}
+			z.WithCoercer(func(in any) (any, error) {
+				sv, err := conf.DefaultCoercers.String(in)
+				if err != nil {
+					return nil, err
+				}
+				return c12Env(sv.(string)), nil
+			})(ss)
+			ss = ss.TestFunc(func(val any, ctx z.Ctx) bool { calls++; gotS = val; return true })
+			ns := &z.NumberSchema[c12Num]{}
+			z.WithCoercer(func(in any) (any, error) { return c12Num(in.(int)), nil })(ns)
+			ns = ns.TestFunc(func(val any, ctx z.Ctx) bool { calls++; gotN = val; return true })
+			var nd struct {
+				E c12Env
+				N c12Num
+				L []c12Env
+			}
+			sc := z.Struct(z.Schema{"e": ss, "n": ns, "l": z.Slice(ss)})
+			if isV {
+				nd.E, nd.N, nd.L = c12Env(str), c12Num(x), []c12Env{c12Env(str)}
+				sc.Validate(&nd)
+			} else {
+				sc.Parse(map[string]any{"e": str, "n": x, "l": []any{str}}, &nd)
+			}
+			v.Cover("callback-ran")
+			v.Assert(calls == 3, "C12:callback-count")
+			e, okE := gotS.(c12Env)
+			n, okN := gotN.(c12Num)
+			v.Assert(okE && okN, "C12:primitive-test-did-not-get-the-value")
+			v.Assert(okE && okN && string(e) == str && int(n) == x, "C12:primitive-test-did-not-get-the-value")
+			return
 		case "primitive":
 			var gotVal any
 			s := z.Int().TestFunc(func(val any, ctx z.Ctx) bool {
@@ -198,6 +245,34 @@ func C12_Run(job string) {
 			errs := run(z.Int().Catch(7).PostTransform(mk("1", 0)).PostTransform(mk("2", 1)).PostTransform(mk("3", 0)))
 			v.Assert(log == "12", "C12:posttransform-not-stopped-by-error")
 			_ = errs
+		case "wrapped":
+			// an ordinary error whose Unwrap chain contains a ZogIssue is still an ordinary error:
+			// reported as an issue wrapping it, at the node's path
+			var ret error
+			wr := func(p any, ctx z.Ctx) error {
+				ret = &c12Wrap{inner: ctx.Issue().SetCode("inner_code").SetPath("inner.path").SetMessage("inner")}
+				return ret
+			}
+			errs := run(z.Int().PostTransform(wr))
+			v.Assert(len(errs) == 1 && errs[0].Err == ret && errs[0].Path == "" && errs[0].Code != "inner_code", "C12:posttransform-error-not-reported")
+			var sd c12Dest
+			sd.A, sd.LN = x, []c12In{{X: x}}
+			sch := z.Struct(z.Schema{"a": z.Int(), "lN": z.Slice(z.Struct(z.Schema{"x": z.Int().PostTransform(wr)}))})
+			var em z.ZogIssueMap
+			if isV {
+				em = sch.Validate(&sd)
+			} else {
+				em = sch.Parse(map[string]any{"a": x, "lN": []any{map[string]any{"x": x}}}, &sd)
+			}
+			v.Assert(len(em) == 2 && len(em["lN[0].x"]) == 1 && em["lN[0].x"][0].Err == ret && len(em["inner.path"]) == 0 && len(em["$root"]) == 0, "C12:posttransform-error-not-reported")
+			if !isV {
+				var pd int
+				pe := z.Preprocess(func(n int, ctx z.Ctx) (int, error) {
+					ret = &c12Wrap{inner: ctx.Issue().SetCode("inner_code").SetPath("inner.path")}
+					return 0, ret
+				}, z.Int()).Parse(x, &pd)
+				v.Assert(len(pe) == 1 && pe[0].Err == ret && pe[0].Path == "", "C12:preprocess-error-not-reported")
+			}
 		case "zogissue":
 			errs := run(z.Int().PostTransform(mk("1", 2)).PostTransform(mk("2", 0)))
 			v.Assert(log == "1", "C12:posttransform-not-stopped-by-error")
@@ -380,7 +455,7 @@ func C19_Jobs() []string {
 		"default-slice/nested/parse", "default-slice/nested/validate",
 		"default-prim/parse", "default-prim/validate", "catch-prim/parse", "default-time/parse",
 		"oneof-list", "contains-needle", "two-dest-types", "test-params-kept",
-		"input/map", "input/typed-slice", "input/struct", "input/nested",
+		"input/map", "input/typed-slice", "input/struct", "input/nested", "input/form", "input/query",
 		"validate-unchanged",
 	}
 }
@@ -600,6 +675,36 @@ func C19_Run(job string) {
 			if len(d.L) > 0 {
 				d.L[0] = m + 1
 				v.Assert(in.L[0] == y, "C19:destination-aliases-input")
+			}
+		case "form", "query":
+			// a request is input too: what net/http parsed (r.Form, r.PostForm, the URL) is the
+			// same after Parse, blanks and repeated keys included
+			qs := "name=%20pad%20&tags[]=%20go%20&tags[]=x%09&multi=%20a&multi=b%20&n=5"
+			req := c11Request("POST", "application/x-www-form-urlencoded", qs, "")
+			if b == "query" {
+				req = c11Request("GET", "", "", qs)
+			}
+			req.ParseForm()
+			var d struct {
+				Name  string
+				Tags  []string
+				Multi []string
+				N     int
+			}
+			sc := z.Struct(z.Schema{"name": z.String(), "tags": z.Slice(z.String()).PostTransform(func(p any, ctx z.Ctx) error {
+				for i := range *p.(*[]string) {
+					(*p.(*[]string))[i] = "changed"
+				}
+				return nil
+			}), "multi": z.Slice(z.String()), "n": z.Int()})
+			sc.Parse(zhttp.Request(req), &d)
+			f := req.Form
+			v.Assert(len(f) == 4 && len(f["name"]) == 1 && f["name"][0] == " pad " && len(f["tags[]"]) == 2 && f["tags[]"][0] == " go " && f["tags[]"][1] == "x\t" &&
+				len(f["multi"]) == 2 && f["multi"][0] == " a" && f["multi"][1] == "b " && f["n"][0] == "5", "C19:input-modified")
+			v.Assert(req.URL.RawQuery == map[string]string{"form": "", "query": qs}[b], "C19:input-modified")
+			if len(d.Multi) == 2 {
+				d.Multi[0] = "mine"
+				v.Assert(f["multi"][0] == " a", "C19:destination-aliases-input")
 			}
 		case "nested":
 			row := []any{x}
